@@ -6,7 +6,8 @@ cls("pint.facets.context.objects:Context",
             "defaults": "Dict[Str,Opaque]", "redefinitions": "List[Opaque]", "checked": "Bool",
             "relation_to_context": "RelMap"})
 cls("pint.facets.context.objects:ContextChain",
-    fields={"contexts": "List[Ref[Context]]", "maps": "List[RelMap]", "_graph": "Opt[Opaque]"})
+    fields={"contexts": "List[Ref[Context]]", "maps": "List[RelMap]", "_graph": "Opt[Opaque]"},
+    truthy="fields:maps")  # ChainMap.__bool__ is any(self.maps)
 
 CC = "pint.facets.context.objects:ContextChain"
 
